@@ -55,6 +55,15 @@ func genPipeline(t *rapid.T, sc stackCase, maxLen int, now int64) ([]wire.Cmd, [
 			c = wire.Cmd{Kind: wire.Version}
 		case r == 2:
 			c = wire.Cmd{Kind: wire.Stat}
+		case r == 6:
+			// a get of many keys (with an alphabet of 250-byte keys: a text line far beyond 4 KiB)
+			c = wire.Cmd{Kind: wire.Get}
+			for j := rapid.IntRange(18, 40).Draw(t, "manyKeys"); j > 0; j-- {
+				c.Keys = append(c.Keys, rapid.SampledFrom(keys).Draw(t, "gkey"))
+			}
+			if sc.Binary {
+				c.NoopEnd = rapid.Bool().Draw(t, "noopEnd")
+			}
 		case r <= 5 && !sc.Binary:
 			c = wire.Cmd{Kind: wire.RawBytes, Raw: []byte(rapid.SampledFrom(badTextLines).Draw(t, "badLine"))}
 		case r == 3 && sc.Binary && sc.Cfg.Shape == "l1only" && sc.Cfg.L1 != "chunked": // chunked.GetE panics on purpose ("not supported in Rend chunked mode")
@@ -64,7 +73,7 @@ func genPipeline(t *rapid.T, sc stackCase, maxLen int, now int64) ([]wire.Cmd, [
 		}
 		if sc.Binary {
 			c.Opaque = opq
-			opq += 16
+			opq += 64 // room for the per-key opaques of a get of up to 40 keys
 		}
 		cmds = append(cmds, c)
 	}
